@@ -531,6 +531,17 @@ unsigned int ares_dns_rr_get_ttl(const ares_dns_rr_t *rr)
   if (rr == NULL) {
     return 0;
   }
+
+  /* A record served from the query cache has aged since it was received: the
+   * time spent cached is recorded on the parent record and must be reflected
+   * in every TTL handed out, not only when the record is written out. */
+  if (rr->parent != NULL && rr->parent->ttl_decrement > 0) {
+    if (rr->parent->ttl_decrement > rr->ttl) {
+      return 0;
+    }
+    return rr->ttl - rr->parent->ttl_decrement;
+  }
+
   return rr->ttl;
 }
 
